@@ -160,6 +160,31 @@ pub fn mixed_machine() -> Machine {
     Machine { cfg, init: vec![], alphabet }
 }
 
+/// RUNSEQ alphabet: Get Endpoint ID from five requesters, an assignment, a
+/// packet that fails its PEC, a good vendor packet, a decode-only call, a probe
+/// and an encoder call; repeat counts 1, 3, 4, 16, 17.
+pub fn runseq_events(cfg: &Cfg) -> Vec<Event> {
+    let a = cfg.addr;
+    let mut v: Vec<Event> = [0x10u8, 0x11, 0x12, 0x13, 0x14].iter().map(|&r| Event::Process(forge_request(r, a, 0, false, 0x02, &[]))).collect();
+    v.push(Event::Process(forge_request(0x10, a, 0, false, 0x01, &[0, 0x21])));
+    let good = forge_request(0x10, a, 0, false, 0x03, &[]);
+    v.push(Event::Process(flip(good.clone(), good.len() - 1, 0x04)));
+    v.push(Event::Process(raw_frame(0x10, a, T_PCI, &[0x14, 0x14, 1, 2])));
+    v.push(Event::Decode(flip(good.clone(), 10, 0x10)));
+    v.push(Event::GetLength(good[..3].to_vec()));
+    v.push(Event::Encode { call: EncCall::ReqGetEid, dst: 0x34 });
+    v
+}
+pub const RUN_REPEATS: [usize; 5] = [1, 3, 4, 16, 17];
+
+pub fn runseq_for(run: &mut Run, prop: &'static str, filter: &Filter) {
+    let cfg = pair_cfg();
+    let ev = runseq_events(&cfg);
+    // depth 3 over all 55 symbols, and depth 5 over the requesters alone with repeats {1, 3}
+    runseq(run, prop, "mixed events", &cfg, &ev, &RUN_REPEATS, 3, filter);
+    runseq(run, prop, "five requesters", &cfg, &ev[..5], &[1, 3], if run.tier.thorough() { 6 } else { 5 }, filter);
+}
+
 /// The complete small-request space for PAIRSEQ: the no-data commands from
 /// every source EID with two instance ids, every version query byte, every
 /// selector below n, every Set Endpoint ID (Set/Force/Set-Discovered x EID).
@@ -251,6 +276,7 @@ pub fn run_c13(run: &mut Run) {
     c13_smbus_header_collisions(run);
     stateless(run, "C13", "MIXSEQ (every kind of call on one context)", &mixed_machine(), depth, &c13_filter);
     pairseq_requests(run, "C13", &pair_cfg(), &c13_filter);
+    runseq_for(run, "C13", &c13_filter);
     // full-domain breadth: every ordered pair of assignments over all EIDs 0x01..=0xFE
     let n1 = 254u64 * 2;
     run.sweep_chunked("every sequence of length <= 2 over Set EID(Set|Force, e), all e in 0x01..=0xFE", n1 + n1 * n1, |acc, lo, hi| {
@@ -558,6 +584,7 @@ pub fn run_c15(run: &mut Run) {
     }
     stateless(run, "C15", "MIXSEQ (every kind of call on one context)", &mixed_machine(), if thorough { 5 } else { 4 }, &c15_filter);
     pairseq_requests(run, "C15", &pair_cfg(), &c15_filter);
+    runseq_for(run, "C15", &c15_filter);
     // message-type lists: every length x lanes
     let total: u64 = (0..=30u64).map(|l| 256 * l.max(1) * 3).sum();
     run.sweep("message-type lists of every length 0..=30 x lanes x 3 backgrounds", total, |acc, i| {
@@ -1144,6 +1171,7 @@ pub fn run_c12(run: &mut Run) {
     // (framing, addressing, command code; the instance id is K-C12-IID's business)
     stateless(run, "C12", "MIXSEQ (every kind of call on one context)", &mixed_machine(), if thorough { 4 } else { 3 }, &|d: &Diff, _h: &[Event]| matches!(d.aspect, Aspect::Resp(_)));
     pairseq_requests(run, "C12", &pair_cfg(), &|d: &Diff, _h: &[Event]| matches!(d.aspect, Aspect::Resp(_)));
+    runseq_for(run, "C12", &|d: &Diff, _h: &[Event]| matches!(d.aspect, Aspect::Resp(_)));
     // (c) parameter breadth
     run.sweep("Set EID (3 operations) x EID 0x01..=0xFE; version query 0..=255; every selector < n for n in {1,2,16}; x 3 states x 3 address pairs", (3 * 254 + 256 + 19) * 3 * 3, |acc, i| {
         let mut ix = Ix(i);
